@@ -172,6 +172,29 @@ func (w *CronWorker) refreshUpdatedJobConfigs(now time.Time) {
 		}
 	}()
 
+	// Start scheduling JobConfigs that were added since the last iteration. Those
+	// that are already in the heap were loaded on startup, and keep their next
+	// schedule time in order to back-schedule any missed schedules.
+	for added := 0; added < 1000; added++ {
+		var jobConfig *execution.JobConfig
+		select {
+		case jobConfig = <-w.addedConfigs:
+		default:
+		}
+		if jobConfig == nil {
+			break
+		}
+		if w.schedule.Contains(jobConfig) {
+			continue
+		}
+		if _, err := w.schedule.Bump(jobConfig, now); err != nil {
+			klog.ErrorS(err, "croncontroller: cannot add new job config to heap",
+				"namespace", jobConfig.Namespace,
+				"name", jobConfig.Name,
+			)
+		}
+	}
+
 	// Perform at most 1000 flushes per iteration to prevent backlogging.
 	for flushes < 1000 {
 		select {
